@@ -358,7 +358,7 @@ fn scheduler_abort_race() -> Body {
 }
 
 /// C18: the to_vec future polled while another thread emits
-fn to_vec(end: &'static str) -> Body {
+fn to_vec(end: &'static str, rewake: bool) -> Body {
   Box::new(move || {
     use std::future::Future;
     use std::task::{Context, Poll, Wake, Waker};
@@ -377,7 +377,35 @@ fn to_vec(end: &'static str) -> Body {
     meta(serde_json::json!({"kind": "to_vec", "sources": {"p1": [1, 2]}, "end1": end}));
     let src_obs = s.observable();
     let mut fut = src_obs.to_vec();
-    let h1 = producer(s.clone(), "p1", vec![1, 2], end);
+    let h1 = if rewake {
+      // the source starts only after both polls: the first waker is certainly stale
+      let s2 = s.clone();
+      spawn(move || {
+        vf::sleep(Duration::from_millis(5));
+        for x in [1i64, 2] {
+          s2.next("p1", x);
+        }
+        if end == "c" {
+          s2.complete("p1");
+        } else {
+          s2.error("p1", 900);
+        }
+      })
+    } else {
+      producer(s.clone(), "p1", vec![1, 2], end)
+    };
+    // `rewake`: the future is first polled with another waker (it moved between tasks); only the
+    // waker of the most recent poll has to be woken
+    if rewake {
+      let w0 = Arc::new(W { flag: vf::Mutex::new(false), cv: vf::Condvar::new() });
+      let waker0 = Waker::from(w0.clone());
+      let mut cx0 = Context::from_waker(&waker0);
+      mark("poll+ 0");
+      match std::pin::Pin::new(&mut fut).poll(&mut cx0) {
+        Poll::Pending => mark("pending"),
+        _ => mark("ready-before-source"),
+      }
+    }
     let w = Arc::new(W { flag: vf::Mutex::new(false), cv: vf::Condvar::new() });
     let waker = Waker::from(w.clone());
     let mut cx = Context::from_waker(&waker);
@@ -542,9 +570,12 @@ fn resub(op: &'static str) -> Body {
       "subscribe_on_observe_on" => cold.subscribe_on(nt()).observe_on(nt()),
       "delay" => cold.delay(Duration::from_millis(5)),
       "debounce" => cold.debounce(Duration::from_millis(5), nt()),
+      "timer" => observables::timer(Duration::from_millis(5), nt()).map(|_| 1i64),
+      "interval_take" => observables::interval(Duration::from_millis(5), nt()).take(3).map(|x: u64| x as i64 + 1),
+      "timeout" => cold.timeout(Duration::from_millis(50), nt()),
       _ => panic!("op"),
     };
-    meta(serde_json::json!({"kind": "resub", "op": op, "observers": ["A", "B"], "items": [1, 2, 3]}));
+    meta(serde_json::json!({"kind": "resub", "op": op, "observers": ["A", "B"], "items": if op == "timer" { vec![1] } else { vec![1, 2, 3] }}));
     let _a = subscribe_rec(&o, "A");
     vf::sleep(Duration::from_millis(100));
     mark("second-subscription");
@@ -598,6 +629,7 @@ pub fn catalogue() -> Vec<(String, Vec<&'static str>)> {
   v.push(("scheduler_abort_race".to_string(), vec!["C08", "C07"]));
   for e in ["c", "e"] {
     v.push((format!("to_vec:{}", e), vec!["C18", "C07"]));
+    v.push((format!("to_vec_rewake:{}", e), vec!["C18", "C07"]));
   }
   for op in ["interval", "timer", "observe_on", "subscribe_on", "debounce", "timeout", "interval_observe_on", "delay_observe_on"] {
     for cause in ["complete", "error", "unsubscribe", "take", "first", "take_until"] {
@@ -608,8 +640,8 @@ pub fn catalogue() -> Vec<(String, Vec<&'static str>)> {
       v.push((format!("workers:{}:{}", op, cause), vec!["C15", "C07"]));
     }
   }
-  for op in ["observe_on", "subscribe_on", "subscribe_on_retry", "observe_on_map", "subscribe_on_observe_on", "delay", "debounce"] {
-    v.push((format!("resub:{}", op), vec!["C14", "C07"]));
+  for op in ["observe_on", "subscribe_on", "subscribe_on_retry", "observe_on_map", "subscribe_on_observe_on", "delay", "debounce", "timer", "interval_take", "timeout"] {
+    v.push((format!("resub:{}", op), vec!["C14", "C07", "C15"]));
   }
   for op in ["observe_on", "subscribe_on", "debounce", "timeout", "observe_on_x2", "subscribe_on_observe_on", "debounce_take", "observe_on_first"] {
     for end in ["complete", "error", "just", "empty"] {
@@ -634,7 +666,8 @@ pub fn build(name: &str) -> Option<Body> {
     "sched_op" if p.len() == 4 => Some(sched_op(p[1], p[2], p[3] == "1")),
     "scheduler" if p.len() == 3 => Some(scheduler(p[1].parse().ok()?, p[2] == "1")),
     "scheduler_abort_race" => Some(scheduler_abort_race()),
-    "to_vec" if p.len() == 2 => Some(to_vec(p[1])),
+    "to_vec" if p.len() == 2 => Some(to_vec(p[1], false)),
+    "to_vec_rewake" if p.len() == 2 => Some(to_vec(p[1], true)),
     "workers" if p.len() == 3 => Some(workers(p[1], p[2])),
     "workers_cold" if p.len() == 3 => Some(workers_cold(p[1], p[2])),
     "resub" if p.len() == 2 => Some(resub(p[1])),
